@@ -36,37 +36,208 @@ TRUSTED_BASE = [
     'unsafe AVX2 code (find_identifier_end_avx2) and its run-time dispatch are not verified',
 ]
 
-PROPS['C13']['kx'] = {}   # KX units are added as they come online
 
+MC_TEXT = ('Contract obligations on the functions that implement this property, discharged on the real code: Verus obligations hold for all '
+           'inputs (unbounded); Kani obligations are complete where the harness is loop-free over the full argument domain and bounded '
+           '(bound stated per harness in the evidence) otherwise. The composition of the function-level facts into the end-to-end '
+           'statement runs through the parser / line-wrapping search, which no contract in reach covers: it is listed under NOT DECIDED '
+           'and a change there is not detected by this check.')
+
+PROPS['C01'] = {
+    'title': 'Formatting preserves every non-blank character, in order',
+    'level': 'model_checking',
+    'vx': {'lexloop': 'L1: scanning is lossless for every input length (tokens concatenate back to the input; leading whitespace is exactly the blank run)'},
+    'kx': {
+        'fmtdata': 'L2: scanner token -> formatter token keeps text and whitespace length; kinds map 1:1; ignored tokens cannot be obtained mutably',
+        'rewriters': 'L3: the two text-replacing rules under contract (keyword lower-casing, comment/directive normalisation) keep every non-blank byte up to ASCII case inside keywords / directive names',
+        'wrapperedge': 'L3: with no multi-line string rewritten the wrapper post-pass does not touch token text',
+        'recon': 'L4: reconstruct emits ws_i ++ content_i exactly once per token, in order; ws_i consists of blanks only',
+    },
+    'not_decided': ['multi-line string re-indentation (try_rewrite_string) is not under contract: C01 is decided for inputs without re-indented multi-line strings or with format_multiline_strings=false',
+                    'frame: no other code calls Token::set_content or permutes the token slice (parser and wrapper hold &mut) - by reading, not proved',
+                    'no TokenRemover is registered by make_formatter - by reading'],
+    'explanation': MC_TEXT,
+}
+PROPS['C02'] = {
+    'title': 'Well-formed code re-scans to the same tokens after formatting',
+    'level': 'model_checking',
+    'vx': {},
+    'kx': {
+        'recon': 'safety net: a line break follows a single-line comment whenever none was planned; configured newline at every break site',
+        'wrapperedge': 'hard invariants table: break after line comments / multi-line block comments / unterminated literals; break before own-line comments and multi-line strings; inline comments never broken off',
+        'spacing': 'word-word and word-number pairs keep exactly one space; inline line comments get one space',
+        'rewriters': 'normalisations keep the lexical shape (`//` prefix, `{$` / `(*$` prefix, length of directives) and are the documented ones only',
+        'lexcomplex': 'a single-line comment ends exactly at LF / CR / end of input (what makes the safety net sufficient)',
+    },
+    'not_decided': ['that the wrapping search honours the invariants on every path', 'the generics consolidator (< > re-typing)',
+                    'pairwise glue-safety of operator kinds (needs a grammar oracle)'],
+    'explanation': MC_TEXT,
+}
+PROPS['C03'] = {
+    'title': 'Formatting is idempotent on well-formed code',
+    'level': 'model_checking',
+    'vx': {},
+    'kx': {
+        'rewriters': 'comment / directive / keyword normalisations are fixpoints',
+        'spacing': 'S5: the spacing rule is a fixpoint on its own output',
+        'eofnl': 'the end-of-file rule writes constants (trivially idempotent)',
+        'fmtdata': 'the layout facts read back from formatted text are (LF count, blanks of the last line) only',
+    },
+    'not_decided': ['that the wrapping search chooses the same breaks on its own output', 're-indentation of multi-line strings being a fixpoint',
+                    'check_formatting is text inequality + bail! (read, 3 lines)'],
+    'explanation': MC_TEXT,
+}
+PROPS['C04'] = {
+    'title': 'Formatting always terminates without aborting, on any input',
+    'level': 'other',
+    'vx': {
+        'lexloop': 'the scanner loop terminates (decreases clause) and cannot panic for inputs < 4 GiB: split_at preconditions, the assert! of lex_complete, index and overflow obligations',
+        'lexops': 'no overflow / index panic in the loop-free sub-scanners for every length and offset',
+        'wsarith': 'whitespace length arithmetic cannot overflow for widths <= 255',
+        'levels': 'nesting-level sum cannot overflow for < 2^48 contexts; NonEmptyVec operations never panic',
+    },
+    'kx': {
+        'cursor': 'no arithmetic overflow / slice panic in cursor re-projection for every attached position (the three repaired defects fail here)',
+        'recon': 'reconstruct: no panic within the bound',
+        'lexscan': 'scanning helpers: no panic on bounded windows',
+        'lexcomplex': 'looping sub-scanners: no panic, end within the input on a char boundary (bounded windows)',
+        'spacing': 'spacing rule: no index / overflow panic for any kinds and counters',
+        'fmtdata': 'FormattingData::from: saturating conversions, no panic',
+    },
+    'not_decided': ['termination and panic-freedom of the recursive-descent parser and of find_optimal_solution', 'linearity of conditional-directive passes',
+                    'polynomial running time is not a contract property', 'inputs >= 4 GiB (to_final_token panics by design)'],
+    'explanation': 'Panic-freedom and termination are decided function by function: Verus proves them for all inputs for the scanner and the arithmetic '
+                   '(every Rust-level obligation - overflow, index, slice bounds, split_at char boundary, assert!, decreases - is an obligation of the unit); '
+                   'Kani checks its built-in overflow / bounds / unwrap / panic properties in every harness of the units listed, within the stated bounds. '
+                   'Termination and panic-freedom of the parser and the wrapping search are NOT decided; a whole-pipeline statement is therefore not claimed.',
+}
+PROPS['C05'] = {
+    'title': 'Block structure is rendered: one statement per line at its nesting depth',
+    'level': 'model_checking',
+    'vx': {'levels': 'level of a logical line = clamp(sum of context level deltas down to the nearest parent context), for every context stack'},
+    'kx': {
+        'settings': 'begin_style=always_wrap <=> break_before_begin, for every configuration',
+        'recon': 'reconstruct renders `indentations_before` whole indentation units at the start of a broken line',
+    },
+    'not_decided': ['the parser\'s line splitting and context deltas; finish_logical_line stamping the level', 'write-back of level into indentations_before (reconstruct_solution)', 'child-line placement'],
+    'explanation': MC_TEXT + ' This is the weakest claim in the set: only the level arithmetic, the begin_style mapping and the rendering of indentation are decided.',
+}
+PROPS['C06'] = {
+    'title': 'Output does not depend on the input\'s line wrapping or spacing',
+    'level': 'model_checking',
+    'vx': {},
+    'kx': {
+        'fmtdata': 'original whitespace is reduced to (number of LF, blanks after the last LF without trailing CR); nothing else of it survives',
+        'spacing': 'S4: the spacing table does not read line-break / indentation counters',
+        'lexcomplex': 'comment kinds depend only on first-on-line (LF before) / LF inside',
+    },
+    'not_decided': ['that parser and search never read FormattingData beyond the blank-line grouping', 'that write-back overwrites the counters of every visited token'],
+    'explanation': MC_TEXT,
+}
 PROPS['C07'] = {
     'title': 'Regions with formatting disabled and asm bodies are kept byte for byte',
     'level': 'model_checking',
     'vx': {},
     'kx': {
-        'recon': 'reconstruct emits the original leading whitespace and content of an ignored token byte for byte, '
-                 'for every kind of neighbouring token (incl. after single-line comments)',
+        'ignore': 'toggle comments recognised exactly (`//`, `{`, `(*`; pasfmt any case; blank; exact word on/off); region marked from off through the next on',
+        'fmtdata': 'marked => ignored flag; ignored => Err(TokenIgnored) from get_token_mut / tokens_mut (no rule can obtain the text mutably)',
+        'rewriters': 'keyword and comment rules leave ignored tokens untouched',
+        'recon': 'reconstruct emits the original leading whitespace and content of an ignored token byte for byte, also after single-line comments (CR / LF)',
     },
-    'not_decided': ['parser classification of asm instruction lines', 'format_into_buf wiring (ignorers -> marker -> FormattedTokens)'],
-    'explanation': 'function-level contracts on the verbatim path; composition through Formatter::format is by reading',
+    'not_decided': ['parser classification of asm instruction lines (IgnoreAsmIstructions marks exactly those lines - read)', 'format_into_buf wiring (ignorers -> marker -> FormattedTokens::new_from_tokens)'],
+    'explanation': MC_TEXT,
 }
+PROPS['C08'] = {
+    'title': 'Output whitespace is canonical: no trailing blanks, one blank line at most',
+    'level': 'model_checking',
+    'vx': {'wsarith': 'indentation and continuation strings consist of `width` copies of one unit character (space or tab), for every width'},
+    'kx': {
+        'recon': 'between tokens only NL^n IND^i CONT^c SPACE^s is emitted',
+        'spacing': 'S1: at most one space between tokens on a line, never a tab; first token none',
+        'wrapperedge': 'post-pass: a token that starts a line gets no spaces',
+        'eofnl': 'the end-of-file token gets exactly one line break, no indentation',
+        'rewriters': 'trailing blanks of single-line comments are trimmed',
+        'settings': 'indentation unit = one tab iff use_tabs, else tab_width spaces',
+    },
+    'not_decided': ['never two consecutive blank lines (the clamp lives in reconstruct_solution, not under contract)', 'tokens the wrapper never visits'],
+    'explanation': MC_TEXT,
+}
+PROPS['C09'] = {
+    'title': 'The configured line ending is used everywhere and input endings do not matter',
+    'level': 'model_checking',
+    'vx': {'wsarith': 'ReconstructionSettings::new: newline_str is LF or CR LF exactly per the setting; LineWhitespace::len does not read it'},
+    'kx': {
+        'settings': 'line_ending option -> newline string, for every configuration',
+        'recon': 'one newline string at every break site of reconstruct, including the safety net',
+        'fmtdata': 'CR never counts as a line break and never survives outside ignored tokens',
+    },
+    'not_decided': ['line terminators inside re-indented multi-line strings (try_rewrite_string not under contract)'],
+    'explanation': MC_TEXT,
+}
+PROPS['C10'] = {
+    'title': 'Indentation settings only re-render indentation',
+    'level': 'model_checking',
+    'vx': {'wsarith': 'ReconstructionSettings::new for ALL widths; measured length = ind*|IND| + cont*|CONT| without overflow; lemma: tab rendering maps onto space rendering iff continuation_indents*tab_width <= 255'},
+    'kx': {
+        'settings': 'config -> (unit, |IND|, |CONT|) incl. saturation at 255',
+        'recon': 'emitted bytes = IND^ind CONT^cont',
+    },
+    'not_decided': ['that wrapping decisions depend on the indentation strings only through LineWhitespace::len (frame, by reading)'],
+    'explanation': MC_TEXT,
+}
+PROPS['C11'] = {
+    'title': 'wrap_column is a limit, not a style switch',
+    'level': 'other',
+    'vx': {},
+    'kx': {
+        'penalty': 'for ALL u32 lengths and limits: fitting costs nothing; overflow dominates every break, is strictly increasing in length and non-increasing in the limit; break cost independent of the limit',
+        'settings': 'wrap_column reaches the wrapper only as max_line_length',
+    },
+    'not_decided': ['optimality of find_optimal_solution (pruning, iteration cap, limit-dependent collapsing of indifferent decisions): the property itself is NOT decided'],
+    'explanation': 'Only necessary conditions on the penalty function are decided (complete over all u32 pairs). The property needs the search to return a penalty-minimal '
+                   'assignment with width-independent tie-breaks; no contract within reach states that, so this check cannot detect a change inside the search.',
+}
+PROPS['C13']['kx'] = {
+    'lexscan': 'scanning helpers (blank run, identifier end, digit runs) on bounded windows: discharge the contracts lexloop / lexops assume',
+    'lextable': 'keyword table for every ASCII word per length; both dispatch tables for every byte; to_final_token; prev/next byte',
+    'lexcomplex': 'looping sub-scanners (comments, literals, directives, identifiers) on bounded windows: the clause lex_token owes to the loop proof + extent/kind',
+}
+PROPS['C13']['explanation'] = ('Losslessness, single trailing Eof, non-empty non-blank-starting contents and char-boundary splits are PROVED for all inputs (Verus, lexloop) '
+                               'under the assumed contracts of count_leading_whitespace / lex_token, which are discharged on bounded windows (Kani) and, for the loop-free '
+                               'sub-scanners, proved for all lengths and offsets (Verus, lexops). Bounded stand-ins are itemised and never counted as proved.')
+PROPS['C15'] = {
+    'title': 'Cursor tracking keeps cursors on the same text and never alters the result',
+    'level': 'model_checking',
+    'vx': {},
+    'kx': {
+        'cursor': 'for every attached position: no overflow, cursor within the output, Content{o} lands at start+min(o,len), out-of-range index lands at the end',
+        'recon': 'oracle for emitted byte counts',
+    },
+    'not_decided': ['the attachment step process_cursors (did not fit Kani)', 'char-boundary of the result', 'tracking never alters the result: type-level frame (relocate_cursors takes &FormattedTokens)'],
+    'explanation': MC_TEXT,
+}
+PROPS['C16'] = {
+    'title': 'The three CLI modes agree and only files mode writes',
+    'level': 'model_checking',
+    'vx': {},
+    'kx': {'orchestr': 'write(): bytes appended = BOM ++ encode(text), returned length = bytes written (what set_len gets); mode defaults; is_stdin'},
+    'not_decided': ['OS semantics of seek/write_all/set_len; OpenOptions::new() read-only', 'check_formatting / exec_format / error-handler wiring in main (read)'],
+    'explanation': MC_TEXT,
+}
+PROPS['C17'] = {
+    'title': 'Files are written back in the encoding and with the BOM they were read in',
+    'level': 'model_checking',
+    'vx': {},
+    'kx': {'orchestr': 'UTF-16LE/BE encoders for EVERY scalar value (complete); encoder dispatch; BOM sniffing on every 4-byte prefix; BOM written first'},
+    'not_decided': ['encoding_rs decode/encode contracts', 'decode_file: replacements => Err and "decode exactly the rest" (read)'],
+    'explanation': MC_TEXT,
+}
+for _p in PROPS.values():
+    _p.setdefault('level_text', _p.get('explanation', ''))
 
-# properties not (or not yet) claimed; bin/mkmanifest lists those that are not in PROPS
 NOT_APPLICABLE = {
-    'C01': 'not yet wired in this revision (units recon/rewriters under construction)',
-    'C02': 'not yet wired in this revision',
-    'C03': 'not yet wired in this revision',
-    'C04': 'not yet wired in this revision',
-    'C05': 'not yet wired in this revision',
-    'C06': 'not yet wired in this revision',
-    'C08': 'not yet wired in this revision',
-    'C09': 'not yet wired in this revision',
-    'C10': 'not yet wired in this revision',
-    'C11': 'not yet wired in this revision',
     'C12': 'the property is a contract on try_rewrite_string/lines_custom; Verus rejects its iterator/closure code and Kani did not finish even lines_custom alone on 6 bytes within 12 minutes (DESIGN.md 3, 6)',
     'C14': 'needs contracts on DirectiveTree pass construction and the parser token primitives; Verus rejects them (iterator-generic recursion, fn-pointer predicates) and Kani finished neither on 2-3 tokens (DESIGN.md 3, 6)',
-    'C15': 'not yet wired in this revision',
-    'C16': 'not yet wired in this revision',
-    'C17': 'not yet wired in this revision',
     'C18': 'quantifies over schedules of a rayon pool: Kani has no threads, Verus would need the code rewritten onto its permission types (a model) (DESIGN.md 6)',
     'C19': 'precedence lives in config::ConfigBuilder, serde(deny_unknown_fields), clap and a directory walk on the real file system: no function-level contract of repository code can express it (DESIGN.md 6)',
 }
